@@ -364,6 +364,7 @@ type step struct {
 	P map[string][]string `json:"p"` // edge tests: delayed goroutines pending after the step
 	// Par: the expectation for the other order of the two calls
 	Alt map[string]expect `json:"alt"`
+	Q   bool              `json:"q"` // pair: the specification's state after this (last) step is a point of rest
 }
 
 type cfg struct {
@@ -917,7 +918,9 @@ func runTest(t *test, seed int) (obsTrace, *divergence) {
 		}
 	}
 	if t.Cfg.Pair {
-		pe := &pairEnd{Quiesced: !stop}
+		// the pair is judged where the specification says it has come to rest (nothing in flight, no timer armed, no delayed
+		// goroutine pending) - a behaviour that ends in the middle of a handshake is not judged as an outcome
+		pe := &pairEnd{Quiesced: !stop && len(t.Steps) > 0 && t.Steps[len(t.Steps)-1].Q}
 		for _, n := range names {
 			e := eps[n]
 			s := e.c.VerifSnapshot()
